@@ -185,10 +185,12 @@ func render(ad *classad.ClassAd) (rendered, error) {
 		r.Names = append(r.Names, n)
 		r.Texts = append(r.Texts, e.String())
 	}
-	if s, ok := ad.EvaluateAttrString("MyType"); ok {
+	// the serialiser evaluates the two type names on the ad without its private attributes
+	pub := ad.Redacted()
+	if s, ok := pub.EvaluateAttrString("MyType"); ok {
 		r.MyType = s
 	}
-	if s, ok := ad.EvaluateAttrString("TargetType"); ok {
+	if s, ok := pub.EvaluateAttrString("TargetType"); ok {
 		r.TargetTyp = s
 	}
 	return r, nil
@@ -359,15 +361,25 @@ func containsFold(hay []byte, needle string) bool {
 
 // oracle runs the direct property checks on one executed scenario.
 func oracle(sc scenario, res *runResult) (key, msg string) {
-	if k, m := secrecy(sc, res); k != "" {
+	k, m := secrecy(sc, res)
+	if k != "" && k != "name-in-public-expression" {
 		return k, m
 	}
-	return reassembly(sc, res)
+	if k2, m2 := reassembly(sc, res); k2 != "" {
+		return k2, m2
+	}
+	return k, m
 }
 
 // secrecy: the canary part of the oracle (what may not be on the wire)
 func secrecy(sc scenario, res *runResult) (key, msg string) {
 	clearWire := res.Wire // every byte that reached the connection
+	nameInPublic := ""
+	defer func() {
+		if key == "" && nameInPublic != "" {
+			key, msg = "name-in-public-expression", nameInPublic
+		}
+	}()
 	for i, a := range sc.Attrs {
 		_ = i
 		canary := a.Val
@@ -376,7 +388,17 @@ func secrecy(sc scenario, res *runResult) (key, msg string) {
 		}
 		if mustWithhold(sc, a.Name) {
 			if containsFold(clearWire, a.Name) {
-				return "name-on-wire", fmt.Sprintf("name of withheld private attribute %q occurs in the emitted bytes", a.Name)
+				// is it only there because a PUBLIC attribute's own expression text mentions it?
+				stripped := []byte(asciiLower(string(clearWire)))
+				for i, n := range res.Rend.Names {
+					if !mustWithhold(sc, n) {
+						stripped = bytes.ReplaceAll(stripped, []byte(asciiLower(n+" = "+res.Rend.Texts[i])), []byte("#"))
+					}
+				}
+				if bytes.Contains(stripped, []byte(asciiLower(a.Name))) {
+					return "name-on-wire", fmt.Sprintf("name of withheld private attribute %q occurs in the emitted bytes", a.Name)
+				}
+				nameInPublic = fmt.Sprintf("the name of withheld private attribute %q occurs in the emitted bytes, inside the rendered expression of a public attribute that refers to it", a.Name)
 			}
 			if canary != "" && bytes.Contains(clearWire, []byte(canary)) {
 				return "value-on-wire", fmt.Sprintf("value of withheld private attribute %q occurs in the emitted bytes", a.Name)
@@ -417,8 +439,8 @@ func secrecy(sc scenario, res *runResult) (key, msg string) {
 // reassembly: what the peer must reconstruct
 func reassembly(sc scenario, res *runResult) (key, msg string) {
 	// peer reconstruction (GetClassAd expects the two type names: not applicable with PutClassAdNoTypes)
-	if sc.Opts&1 != 0 {
-		return "", ""
+	if sc.Opts&1 != 0 && sc.Enc {
+		return "", "" // length-prefixed strings: GetClassAd cannot tell the missing type names from a short message
 	}
 	if res.GotErr != nil {
 		return "peer-error", fmt.Sprintf("peer GetClassAd failed: %v", res.GotErr)
@@ -1082,6 +1104,26 @@ func gen(c *core.Ctx) error {
 			g.flush(c)
 		}
 	}
+	// type names and public expressions that REFER to private attributes: the evaluated type names
+	// must not carry the secret; every stream state, with and without the opt-in
+	refAds := [][]attrSpec{
+		{{"Name", "str", "slot1@host"}, {"ClaimId", "str", "kanarie-typeref-000001"}, {"MyType", "expr", "ClaimId"}, {"Cpus", "int", "4"}},
+		{{"Name", "str", "slot2@host"}, {"_condor_privTok", "str", "kanarie-typeref-000002"}, {"transferkey", "str", "kanarie-typeref-000003"},
+			{"MyType", "expr", `strcat("M-", _condor_privTok)`}, {"TargetType", "expr", `toUpper(TransferKey)`}},
+		{{"Name", "str", "slot3@host"}, {"Capability", "str", "kanarie-typeref-000004"}, {"MyType", "str", "Machine"}, {"TargetType", "expr", `ifThenElse(Capability =?= "x", "Job", Capability)`}},
+	}
+	for _, attrs := range refAds {
+		g := &group{tbl: tbl3}
+		for _, stt := range states {
+			for _, opts := range []int{0, 32, 34, 4, 36} {
+				if err := g.add(c, scenario{Key: stt[0], Enc: stt[1], Opts: opts, Attrs: attrs}, 0, 0); err != nil {
+					return err
+				}
+				c.Count("type-name-refers-to-private")
+			}
+		}
+		g.flush(c)
+	}
 	// 4. sequences through one Message, and streams rebuilt from exported crypto state
 	secretAd := func(i int) []attrSpec {
 		return []attrSpec{{"Name", "str", fmt.Sprintf("slot%d@host", i)}, {[]string{"ClaimId", "_condor_privK", "transferkey", "Capability"}[i%4], "str", fmt.Sprintf("kanarie-seq-%04d-%08x", i, c.Rng.Uint32())},
@@ -1096,6 +1138,9 @@ func gen(c *core.Ctx) error {
 			seqs = append(seqs, seqScenario{Kind: "seq", Init: "blob", Ectr: ctr, Steps: []seqStep{{"", opts, secretAd(int(ctr % 97))}}})
 		}
 		seqs = append(seqs, seqScenario{Kind: "seq", Init: "blob", Ectr: ctr, Steps: []seqStep{{"", 32, secretAd(1)}, {"", 32, secretAd(2)}, {"", 32, secretAd(3)}}})
+	}
+	for _, n := range []int{1048560, 1048576, 1200000, 2300000} {
+		seqs = append(seqs, seqScenario{Kind: "seq", Init: "keyed-clear", Steps: []seqStep{{"", 32, []attrSpec{{"Name", "str", "big"}, {"ClaimId", "str", "kanarie-big-secret-" + strings.Repeat("s", n)}, {"Cpus", "int", "1"}}}}})
 	}
 	pres := []string{"", "setkey", "crypto-on", "crypto-off", "newmsg"}
 	for _, init := range []string{"plain", "keyed-enc", "keyed-clear"} {
